@@ -53,6 +53,9 @@ def stepLine (st : DriverState) (line : String) : DriverState × String :=
   | "msgtree" :: args =>
     let (s', out) := MsgTree.step (MsgTree.guardOfFacts Generated.commissionDecoratorCases) st.msgtree args
     ({ st with msgtree := s' }, out)
+  | "pc" :: args =>
+    (st, Precompile.step (Precompile.cfgOfFacts Generated.precompileRequiredGasLenCheck Generated.precompileIsMutation
+      Generated.precompileRunCases Generated.precompileRunDefersOOG Generated.precompileRawStringUses) args)
   | "oracle" :: args => (st, Oracle.step args)
   | "infl" :: args =>
     let (s', out) := Inflation.step st.infl args
